@@ -1,11 +1,191 @@
 import Oracle.Util
+import Wz.Model.Calls
+import Wz.Model.CallEngine
+/-
+Oracle topic c06.
+
+  c06 world <wid> <D> <enc>         define a world (instances `|`, functions `;`, instructions `,`), fresh state
+  c06 call <wid> <inst> <fn> <arg>  call through the public API; answer `<outcome> # <dump>`
+  c06 start <wid> <inst> <fn>       (re)instantiate the transient instance <inst> and run its start function <fn>
+  c06 dump <wid>                    state dump
+  c06 drop <wid>
+  c06 grow <len> <req>              compiler growStack model: new length or `overflow`
+  c06 growseq <len> <req>           lengths visited by repeated growth until overflow
+  c06 ce ...                        call-engine state machine (see below)
+
+instruction: <guard>.<op>   guard: a | e<n> | n<n>
+  op: sg.<g>.<v> | ag.<g> | st.<a>.<v> | sx.<a> | tr.<k> | ca.<i>.<f>.<arg> | ho.<h>.<arg>
+  arg: c<n> | x | m        host: ok | pe | ps | pv | cl | ex | rc-<j>-<g> | rp-<j>-<g>
+-/
 namespace Oracle.C06
-open Oracle
+open Oracle Wz.Model.Calls
 
-/-- Topic state (stub: no model behind this topic yet). -/
-abbrev St := Unit
-def init : St := ()
+structure WSt where
+  W : World
+  D : Nat
+  σ : State
 
-def step (st : St) (_args : List String) : St × String := (st, "bad-op")
+abbrev St := List (Nat × WSt)
+def init : St := []
+
+def parseArg (s : String) : Option ArgE :=
+  if s == "x" then some .x
+  else if s == "m" then some .xm1
+  else if s.startsWith "c" then (parseNat (s.drop 1).toString).map .const
+  else none
+
+def parseGuard (s : String) : Option Guard :=
+  if s == "a" then some .always
+  else if s.startsWith "e" then (parseNat (s.drop 1).toString).map .eq
+  else if s.startsWith "n" then (parseNat (s.drop 1).toString).map .ne
+  else none
+
+def parseTrap (s : String) : Option TrapKind :=
+  match s with
+  | "unreachable" => some .unreachable
+  | "divzero" => some .divZero
+  | "divoverflow" => some .divOverflow
+  | "truncoverflow" => some .truncOverflow
+  | "invalidconv" => some .invalidConv
+  | "oobload" => some .oobLoad
+  | "oobstore" => some .oobStore
+  | "oobtable" => some .oobTable
+  | "nulltable" => some .nullTable
+  | "sigmismatch" => some .sigMismatch
+  | _ => none
+
+def parseHost (s : String) : Option HostFn :=
+  match s.splitOn "-" with
+  | ["ok"] => some .ok
+  | ["pe"] => some (.panic .err)
+  | ["ps"] => some (.panic .str)
+  | ["pv"] => some (.panic .val)
+  | ["cl"] => some .close
+  | ["ex"] => some .exit
+  | ["rc", j, g] => do let j ← parseNat j; let g ← parseNat g; pure (.reenter j g true)
+  | ["rp", j, g] => do let j ← parseNat j; let g ← parseNat g; pure (.reenter j g false)
+  | _ => none
+
+def parseInstr (s : String) : Option Instr :=
+  match s.splitOn "." with
+  | g :: rest => do
+    let g ← parseGuard g
+    let op ← (match rest with
+      | ["sg", a, b] => do let a ← parseNat a; let b ← parseNat b; pure (Op.setg a b)
+      | ["ag", a] => do let a ← parseNat a; pure (Op.addg a)
+      | ["st", a, b] => do let a ← parseNat a; let b ← parseNat b; pure (Op.store a b)
+      | ["sx", a] => do let a ← parseNat a; pure (Op.storex a)
+      | ["tr", k] => (parseTrap k).map Op.trap
+      | ["ca", i, f, a] => do let i ← parseNat i; let f ← parseNat f; let a ← parseArg a; pure (Op.call i f a)
+      | ["ho", h, a] => do let h ← parseHost h; let a ← parseArg a; pure (Op.host h a)
+      | _ => none : Option Op)
+    pure (g, op)
+  | _ => none
+
+def parseFunc (s : String) : Option Func :=
+  if s == "-" then some [] else (s.splitOn ",").mapM parseInstr
+
+def parseInst (s : String) : Option (List Func) :=
+  if s == "_" then some [] else (s.splitOn ";").mapM parseFunc
+
+def parseWorld (s : String) : Option World := (s.splitOn "|").mapM parseInst
+
+def clsName : ErrClass → String
+  | .unreachable => "unreachable" | .intDivZero => "int_div_zero" | .intOverflow => "int_overflow"
+  | .invalidConv => "invalid_conv" | .oobMemory => "oob_memory" | .invalidTable => "invalid_table"
+  | .typeMismatch => "type_mismatch" | .unalignedAtomic => "unaligned_atomic"
+
+def outcomeStr : Except Failure Nat → String
+  | .ok v => s!"ok {v}"
+  | .error (.trap c) => s!"trap {clsName c}"
+  | .error .overflow => "overflow"
+  | .error (.hostPanic .err n) => s!"perr {n}"
+  | .error (.hostPanic .str n) => s!"pstr {n}"
+  | .error (.hostPanic .val n) => s!"pval {n}"
+  | .error (.exit c) => s!"exit {c}"
+  | .error .outOfFuel => "fuel"
+  | .error .badRef => "badref"
+
+def insertSorted (p : Nat × Nat) : List (Nat × Nat) → List (Nat × Nat)
+  | [] => [p]
+  | q :: rest => if p.1 ≤ q.1 then p :: q :: rest else q :: insertSorted p rest
+
+def sortMem (m : List (Nat × Nat)) : List (Nat × Nat) := m.foldl (fun acc p => insertSorted p acc) []
+
+def dumpInst (k : Nat) (s : InstState) : String :=
+  let c := match s.closed with | none => "-" | some c => toString c
+  let g := ",".intercalate (s.globals.map toString)
+  let cells := (sortMem (s.mem.filter (fun p => p.2 != 0))).map (fun p => s!"{p.1}={p.2}")
+  let m := if cells.isEmpty then "-" else ",".intercalate cells
+  s!"i{k}:c={c}:g={g}:m={m}"
+
+/-- Dump of the persistent instances (all but the last, transient one). -/
+def dumpState (σ : State) : String :=
+  let n := σ.length - 1
+  " ".intercalate (((List.range n).zip (σ.take n)).map (fun p => dumpInst p.1 p.2))
+
+def answer (r : R) : String := outcomeStr r.1 ++ " # " ++ dumpState r.2
+
+open Wz.Model.CallEngine in
+def stepCE (args : List String) : String :=
+  match args with
+  | ["grow", len, req] =>
+    match parseNat len, parseNat req with
+    | some l, some r =>
+      match growLen false l r with
+      | none => "overflow"
+      | some n => toString n
+    | _, _ => "bad-op"
+  | ["growseq", len, req] =>
+    match parseNat len, parseNat req with
+    | some l, some r => " ".intercalate ((growSeq false 64 l r).map toString)
+    | _, _ => "bad-op"
+  | ["required", n] =>
+    match parseNat n with
+    | some n => toString (requiredInitial n)
+    | none => "bad-op"
+  | _ => "bad-op"
+
+def step (st : St) (args : List String) : St × String :=
+  match args with
+  | ["world", wid, d, enc] =>
+    match parseNat wid, parseNat d, parseWorld enc with
+    | some wid, some d, some W => (assocSet st wid { W := W, D := d, σ := initState W }, "ok")
+    | _, _, _ => (st, "bad-op")
+  | ["call", wid, i, f, a] =>
+    match parseNat wid, parseNat i, parseNat f, parseNat a with
+    | some wid, some i, some f, some a =>
+      match assocGet st wid with
+      | none => (st, "bad-op")
+      | some w =>
+        let r := apiCall w.W w.D defaultFuel i f a w.σ
+        (assocSet st wid { w with σ := r.2 }, answer r)
+    | _, _, _, _ => (st, "bad-op")
+  | ["start", wid, i, f] =>
+    match parseNat wid, parseNat i, parseNat f with
+    | some wid, some i, some f =>
+      match assocGet st wid with
+      | none => (st, "bad-op")
+      | some w =>
+        -- instantiation resolves imports by module name first: a closed module is unregistered
+        -- (registry behaviour, property C10); the transient instance imports instances 0 and 2
+        if (w.σ.closedOf 0).isSome || (w.σ.closedOf 2).isSome then (st, "noimport # " ++ dumpState w.σ) else
+        let σ0 := w.σ.modify i (fun _ => {})
+        let r := apiCall w.W w.D defaultFuel i f 0 σ0
+        (assocSet st wid { w with σ := r.2 }, answer r)
+    | _, _, _ => (st, "bad-op")
+  | ["dump", wid] =>
+    match parseNat wid with
+    | some wid =>
+      match assocGet st wid with
+      | none => (st, "bad-op")
+      | some w => (st, dumpState w.σ)
+    | none => (st, "bad-op")
+  | ["drop", wid] =>
+    match parseNat wid with
+    | some wid => (st.filter (·.1 != wid), "ok")
+    | none => (st, "bad-op")
+  | "ce" :: rest => (st, stepCE rest)
+  | _ => (st, "bad-op")
 
 end Oracle.C06
